@@ -42,9 +42,14 @@ PENDING_FINDINGS = [
      "'Since:' on a callback field (Struct.field block) never reaches the GIR: _write_field omits _append_version "
      "for fields holding an anonymous callback"),
     ('crash:emitter-param-compare',
-     "(emitter m) on a signal with N>=1 parameters whose method m has N parameters makes "
+     "(emitter m) on a signal with exactly one parameter whose method m has one parameter too makes "
      "IntrospectablePass._introspectable_callable_analysis raise IndexError (method.parameters[idx + 1]); "
      "no GIR is produced"),
+    ('emitter-param-compare:rejected',
+     "(emitter m) on a signal with N>=2 parameters whose method m has the same return type and the same N "
+     "parameter types is dropped with the warning 'does not have the same type of arguments': the same loop of "
+     "IntrospectablePass._introspectable_callable_analysis compares signal parameter i with method parameter i+1 "
+     "and rejects when they ARE equivalent"),
 ]
 
 GOBJECT_GIR = '''<?xml version="1.0"?>
@@ -484,9 +489,10 @@ def canon_model_rec(rec):
             'docs': dict((k, v) for k, v in rec['docs'])}
 
 
-def compare_model(real, mrecs, base_elems):
+def compare_model(real, mrecs, base_elems, cnt=None):
     """-> list of differences (address, what)"""
     diffs = []
+    warnings = real.get('warnings', [])
     skipped_types = set()
     for addr, rec in mrecs.items():
         if addr.startswith('type:') and canon_model_rec(rec)['attrs'].get('introspectable') == '0':
@@ -516,6 +522,13 @@ def compare_model(real, mrecs, base_elems):
                     for p in el['path'])
             if not derived:
                 diffs.append((addr, 'GIR: introspectable=0 without skip in the model'))
+        # the emitter named by the annotation is validated against the signal by IntrospectablePass (not
+        # modelled: outside this property's anchors); a refusal comes with a diagnostic naming the signal
+        if addr.startswith('sig:') and 'emitter' in m['attrs'] and 'emitter' not in r['attrs'] and \
+                any('Emitter method' in w and ('::%s ' % addr.split('::', 1)[-1]) in w for w in warnings):
+            m['attrs'].pop('emitter')
+            if cnt is not None:
+                cnt.hit('correspondence:emitter-refused-outside-model')
         if addr.startswith('type:') and el['tag'] == 'constant' and 'value' not in m['attrs']:
             r['attrs'].pop('value', None)
         if r != m:
@@ -681,6 +694,25 @@ def expected_presence(b, kind, is_callback_field):
     return exp
 
 
+def emitter_compatible(spec, b, mname, elems):
+    """does the method `mname` of the signal's class have the signal's return type and parameter types?
+    (all generated parameters are ints; signals return void unless said otherwise)"""
+    t = b.get('target')
+    if not t or t[0] != 'sig':
+        return False
+    ty = find_type(spec, t[1])
+    sig = next((x for x in (ty or {}).get('sigs', []) if x['name'] == t[2]), None)
+    if ty is None or sig is None:
+        return False
+    for f in ty.get('funcs', []):
+        e = elems.get('fn:' + f['symbol'])
+        if e is None or e['tag'] != 'method' or e['name'] != mname or e.get('container') != spec['ns'] + ty['name']:
+            continue
+        # the first method of that name is the one the scanner looks at
+        return f.get('ret', 'int') == sig.get('ret', 'void') and f.get('nparams', 0) == sig.get('nparams', 0)
+    return False
+
+
 def wellformed(b):
     """every annotation carries the number of options it needs (the property speaks about annotation
     assignments, not about syntax errors the comment parser already warned about)"""
@@ -744,9 +776,23 @@ def judge_presence(ctx, cnt, spec, real, case_id):
                     value = value.strip()
             else:
                 got = dict((k, v) for k, v in rec['attributes']).get(name)
-            if name in ('emitter', 'glib:set-property', 'glib:get-property') and got != value and \
-                    any(('mismatched' in w or 'Emitter method' in w) for w in warnings):
+            # an accessor / emitter annotation that the scanner refuses with a diagnostic naming this very
+            # function / signal is outside the statement -- unless the refusal itself is unfounded: an emitter
+            # whose return type and parameters are those of the signal
+            if name in ('glib:set-property', 'glib:get-property') and got != value and \
+                    any('mismatched' in w and ("'%s'" % b['key']) in w for w in warnings):
                 cnt.hit('presence:outside-rejected-with-warning')
+                continue
+            if name == 'emitter' and got != value and \
+                    any('Emitter method' in w and ('::%s ' % b['key'].split('::', 1)[-1]) in w for w in warnings):
+                if emitter_compatible(spec, b, value, elems):
+                    cnt.hit('presence:emitter-compatible-but-rejected')
+                    ctx.report_failure('emitter-param-compare:rejected',
+                                       'block %r: (emitter %s) names a method with the return type and the parameters '
+                                       'of the signal, yet it is refused with a warning and the GIR has emitter=%r (%s)'
+                                       % (b['key'], value, got, addr), {'kind': 'case', 'spec': spec})
+                else:
+                    cnt.hit('presence:outside-rejected-with-warning')
                 continue
             cnt.hit('presence:checked')
             cnt.hit('presence:' + name)
@@ -972,6 +1018,12 @@ def judge_absence(ctx, cnt, spec, real, idx, gobject_gir, case_id):
                 tnames = set(e2[target]['name'] for e2 in (a_el, b_el) if target in e2)
                 if any(tn in (pn, 'get_' + pn, 'is_' + pn, 'set_' + pn) for tn in tnames for pn in props):
                     allowed.append(('accessor-sibling-candidate', acc))
+            # the emitter a signal names is validated against the method of that name: a role annotation that
+            # renames the documented function makes that validation apply or not
+            if target is not None and target.startswith('fn:') and addr.startswith('sig:'):
+                tnames = set(e2[target]['name'] for e2 in (a_el, b_el) if target in e2)
+                if any(e['rec']['attrs'].get('emitter') in tnames for e in (x, y)):
+                    allowed.append(('emitter-validation', ['emitter']))
             if allowed:
                 every = [n for _l, names in allowed for n in names]
                 if strip_attrs(sx, every) == strip_attrs(sy, every):
@@ -1099,7 +1151,7 @@ def gen_spec(rng, size=None):
                 # the default reported by the runtime dump (an annotation overrides it); '' is a value too
                 if rng.random() < 0.3:
                     p['default'] = rng.choice(['', '0', 'TRUE', '-1'])
-            t['sigs'] = [{'name': w, 'nparams': rng.choice([0, 0, 1])}
+            t['sigs'] = [{'name': w, 'nparams': rng.choice([0, 0, 1, 2])}
                          for w in uniq([common] + words[4:4 + rng.randint(0, 1)])]
             t['vslots'] = [{'name': w, 'nparams': rng.randint(0, 2)}
                            for w in uniq([common] + words[5:5 + rng.randint(0, 1)])] if t['has_class_struct'] else []
@@ -1110,7 +1162,10 @@ def gen_spec(rng, size=None):
                 for v in t['vslots']:
                     if v['name'] == w and rng.random() < 0.7:
                         np_ = v['nparams']
-                t['funcs'].append({'symbol': us + w + rng.choice(['', '', '_it']), 'role': 'method', 'nparams': np_})
+                fn = {'symbol': us + w + rng.choice(['', '', '_it']), 'role': 'method', 'nparams': np_}
+                if rng.random() < 0.3 and not any(v['name'] == w for v in t['vslots']):
+                    fn['ret'] = 'void'      # a possible signal emitter
+                t['funcs'].append(fn)
             # accessor names the pairing heuristic looks for: get_<prop>, set_<prop>, is_<prop> (and <prop>
             # itself, above); now and then a dashed property name (normalised to '_' for the lookup)
             if rng.random() < 0.25:
@@ -1193,12 +1248,18 @@ def gen_spec(rng, size=None):
                 add('%s:%s' % (cname, p['name']), ('prop', t['name'], p['name']), 'property', mnames)
         for s in t.get('sigs', []):
             if rng.random() < 0.5:
-                # emitters whose parameter count differs are rejected with a warning; equal counts with
-                # parameters hit the known crash site, so they are generated rarely
+                # emitters: methods of the class, with the signal's signature or not (another return type or
+                # parameter count is refused with a warning).  One parameter on both sides is the known crash
+                # site (the whole namespace is lost then), so that combination is generated rarely.
                 cands = [f['symbol'][len(us):] for f in t.get('funcs', [])
-                         if f['role'] == 'method' and f.get('nparams', 0) == 0 and s.get('nparams', 0) == 0
-                         and f.get('ret', 'int') == 'void']
-                add('%s::%s' % (cname, s['name']), ('sig', t['name'], s['name']), 'signal', cands or ['nonesuch'])
+                         if f['role'] == 'method' and f['symbol'].startswith(us)
+                         and not (f.get('ret', 'int') == 'void' and f.get('nparams', 0) == 1
+                                  and s.get('nparams', 0) == 1 and rng.random() < 0.9)]
+                voids = [f['symbol'][len(us):] for f in t.get('funcs', [])
+                         if f['role'] == 'method' and f['symbol'].startswith(us) and f.get('ret', 'int') == 'void'
+                         and f.get('nparams', 0) == s.get('nparams', 0) != 1]
+                add('%s::%s' % (cname, s['name']), ('sig', t['name'], s['name']), 'signal',
+                    (voids if voids and rng.random() < 0.6 else cands) or ['nonesuch'])
         sname = cname + ('Class' if k == 'class' else 'Interface')
         for v in t.get('vslots', []):
             if rng.random() < 0.3:
@@ -1413,6 +1474,7 @@ def work(task):
         else:
             out['elems'] = dict((a, {'rec': e['rec'], 'tag': e['tag'], 'name': e['name'], 'path': e['path'],
                                      'serial': e['serial'], 'refs': e['refs']}) for a, e in real['elems'].items())
+            out['warnings'] = real['warnings']
             if any(e['rec']['attrs'].get('introspectable') == '0' for e in real['elems'].values()):
                 base = run_real(dict(cfg, comments=[]))
                 out['base'] = dict((a, {'rec': e['rec']}) for a, e in base.get('elems', {}).items())
@@ -1441,7 +1503,7 @@ def run(ctx):
     rng = ctx.rng
     ctx.log('proofs rebuilt and audited')
     t_search0 = time.time()          # the budget covers the search, not the wait for the shared lake lock
-    t_budget = ctx.n(60, 780)
+    t_budget = ctx.n(60, 600)
     n_cases = ctx.n(300, 10000)
     n_mal = ctx.n(40, 1200)
     n_absence = ctx.n(4, 6)
@@ -1541,7 +1603,8 @@ def run(ctx):
                                   % (mres['error'], cid))
                 ctx.notes.append({'disagreeing_case': cid, 'spec': json.dumps(spec)[:4000]})
             continue
-        diffs = compare_model({'elems': out['elems']}, model_records(nodes, mres), out.get('base', {}))
+        diffs = compare_model({'elems': out['elems'], 'warnings': out.get('warnings', [])},
+                              model_records(nodes, mres), out.get('base', {}), cnt)
         cnt.hit('correspondence:namespaces')
         cnt.hit('correspondence:elements', len(out['elems']))
         if diffs:
